@@ -218,7 +218,7 @@ PROPS["C16"] = {
     "trusted_base": KERNEL_TB + [
         "modelled, not verified: hash/path_compression.rs and FriProof::compress transcribed by hand (P2/Model/PathCompression.lean, Compress.lean); FriProof decompression and verify_compressed are exercised on the implementation only (round trip + verdict equivalence oracle), their Lean model is partial",
     ],
-    "level_text": "(C16b: Lean model of get_inferred_elements and CompressedFriProof::decompress and of the PLONK-level compress / decompress / verify_compressed, tied to the real code by requests decompress / vcompressed / pcompress incl. edited compressed proofs; theorems: first-wins maps — lookup in the compressed map returns the entry of the FIRST query with that index, sorting by key preserves lookups (qsort permutation lemma proved from scratch); acceptance by Fri.verify implies every omitted coset evaluation equals the inferred one (consistent_of_accept); per query round, for all layers incl. repeated indices and shared cosets, re-insertion of the inferred evaluations rebuilds the original evaluation vectors (decompress_query_aligned_partial); compression keeps every transcript part, so the challenges of the compressed proof are those of the original; verify_compressed accepts an accepted proof GIVEN the round trip (verifyCompressed_of_roundtrip); towards the closed round trip: step maps are first-wins per layer (compress_step_first_wins), for a well-formed accepted proof inferredElements succeeds and the evaluation part of decompress rebuilds exactly the evaluation vectors of every query round incl. duplicates and shared cosets (inferred_and_rebuilt_of_accept, rebuilt_evals), combineInitial reads only leaves, Merkle paths of the initial trees round-trip under an honest-tree witness with first-wins compressed paths (merkle_roundtrip_first_wins, initial_tree_paths_roundtrip) — the per-layer tree instance and the final reassembly into decompress(compress p) = p are NOT proved) Lean 4 theorem: Merkle multi-proof compression followed by decompression returns the original proofs for EVERY tree, cap height and index multiset (repeats and shared cosets included), against the actual prove function of the Merkle model; FriProof::compress tied to its Lean model by exact equality of the compressed proof on real proofs with colliding query indices; decompress/verify_compressed checked by the property's own oracle on the implementation (lossless, verdict-equivalent, also on tampered proofs)",
+    "level_text": "(C16b: Lean model of get_inferred_elements and CompressedFriProof::decompress and of the PLONK-level compress / decompress / verify_compressed, tied to the real code by requests decompress / vcompressed / pcompress incl. edited compressed proofs; theorems: first-wins maps — lookup in the compressed map returns the entry of the FIRST query with that index, sorting by key preserves lookups (qsort permutation lemma proved from scratch); acceptance by Fri.verify implies every omitted coset evaluation equals the inferred one (consistent_of_accept); per query round, for all layers incl. repeated indices and shared cosets, re-insertion of the inferred evaluations rebuilds the original evaluation vectors (decompress_query_aligned_partial); compression keeps every transcript part, so the challenges of the compressed proof are those of the original; verify_compressed accepts an accepted proof GIVEN the round trip (verifyCompressed_of_roundtrip); conversely acceptance by the compressed verifier implies that the decompressed proof passed the full shape validation and verify_with_challenges (verifyCompressed_accept_imp; a mis-shaped decompressed proof is never accepted — F-C16-1 as repaired); towards the closed round trip: step maps are first-wins per layer (compress_step_first_wins), for a well-formed accepted proof inferredElements succeeds and the evaluation part of decompress rebuilds exactly the evaluation vectors of every query round incl. duplicates and shared cosets (inferred_and_rebuilt_of_accept, rebuilt_evals), combineInitial reads only leaves, Merkle paths of the initial trees round-trip under an honest-tree witness with first-wins compressed paths (merkle_roundtrip_first_wins, initial_tree_paths_roundtrip) — the per-layer tree instance and the final reassembly into decompress(compress p) = p are NOT proved) Lean 4 theorem: Merkle multi-proof compression followed by decompression returns the original proofs for EVERY tree, cap height and index multiset (repeats and shared cosets included), against the actual prove function of the Merkle model; FriProof::compress tied to its Lean model by exact equality of the compressed proof on real proofs with colliding query indices; decompress/verify_compressed checked by the property's own oracle on the implementation (lossless, verdict-equivalent, also on tampered proofs)",
     "level_note": "Found (independent audit agents, reproduced here with harness/src/forge.rs) and repaired in /repo: F-C16-1 — verify_compressed accepted FORGED proofs for any circuit and any public inputs (no shape validation on the compressed path; the number of quotient identities was taken from the proof). The forged-shape generator stays in the check (plain and compressed verification must both reject). Trusted: Lean kernel, standard axioms, hand transcription tied by correspondence; generators force repeated indices and shared cosets (tiny LDE domains, 28-40 queries, arities 1-4, cap heights 0-4, zk on/off).",
     "assumptions": [],
     "rule": "accepted proofs of generated programs under collision-forcing configs; per proof: compress/decompress/verify_compressed oracle, model-vs-real compressed FRI proof, 3 path-roundtrip requests on real Merkle paths with chosen index multisets, 2 tampered variants; distinct = distinct request lines",
